@@ -101,6 +101,7 @@ type Exec struct {
 	predict          map[string]string
 	lazies           []*Object
 	tokenVars        []*Term
+	preCounts        map[string]map[string]*Term
 	observed         []Observed
 	cegarRounds      int
 	pendingExclude   []ExcludeCond
@@ -706,6 +707,15 @@ func (x *Exec) materialize(o *Object) {
 	case OStrBytes:
 		s, ok := o.Str.(string)
 		if !ok {
+			if bs, _, known := x.atomsBytes(toAtoms(o.Str)); known {
+				a := &ArrV{Elems: make([]Value, len(bs))}
+				for i := range bs {
+					a.Elems[i] = bs[i]
+				}
+				o.Kind = OPlain
+				o.Val = a
+				return
+			}
 			panic(unsupported("byte access into symbolic string"))
 		}
 		a := &ArrV{Elems: make([]Value, len(s))}
@@ -1517,6 +1527,9 @@ func (x *Exec) strLen(s Value) *Term {
 	if c, ok := s.(string); ok {
 		return BVi(int64(len(c)), 64)
 	}
+	if bs, hasB, ok := x.atomsBytes(toAtoms(s)); ok && hasB {
+		return BVi(int64(len(bs)), 64)
+	}
 	h := sha256sum([]byte(renderAtoms(toAtoms(s))))
 	n := Var(fmt.Sprintf("strlen_%x", h[:8]), 64)
 	x.addPC(Not(Slt(n, BVi(0, 64))))
@@ -1586,6 +1599,8 @@ func (x *Exec) indexVal(base Value, idx *Term, tb, ti types.Type) Value {
 	case string:
 		x.obligation(Ult(idx, BVi(int64(len(b)), 64)), "string index out of range")
 		return x.stringByteAt(b, idx)
+	case *SymStr:
+		return x.symStrByteAt(b, idx)
 	}
 	panic(unsupported(fmt.Sprintf("Index on %T", base)))
 }
@@ -1755,6 +1770,8 @@ func (x *Exec) lookup(base, key Value, i *ssa.Lookup) Value {
 		idx := i64(key.(*Term), i.Index.Type())
 		x.obligation(Ult(idx, BVi(int64(len(b)), 64)), "string index out of range")
 		return x.stringByteAt(b, idx)
+	case *SymStr:
+		return x.symStrByteAt(b, i64(key.(*Term), i.Index.Type()))
 	case MapV:
 		vt := i.X.Type().Underlying().(*types.Map).Elem()
 		val, ok := x.mapLookup(b, key, vt)
@@ -1786,7 +1803,39 @@ func (x *Exec) mapLookup(m MapV, key Value, vt types.Type) (Value, *Term) {
 			}
 			return zero, tFalse
 		}
-		panic(unsupported("map lookup with symbolic integer key"))
+		// symbolic integer key over a map whose keys are all constants: first-match chain
+		zt, isTerm := zero.(*Term)
+		if !isTerm {
+			panic(unsupported("map lookup with symbolic integer key and non-integer values"))
+		}
+		val, in := zt, tFalse
+		km, kv := knownBits(k, 6)
+		// compare only the low bits when all higher bits of the key are constant
+		low := k.W
+		for low > 0 && km.Bit(low-1) == 1 {
+			low--
+		}
+		kl := k
+		if low > 0 && low < k.W {
+			kl = Extract(low-1, 0, k)
+		}
+		for j := len(o.Entries) - 1; j >= 0; j-- {
+			ek, ok1 := o.Entries[j].Key.(*Term)
+			ev, ok2 := o.Entries[j].Val.(*Term)
+			if !ok1 || !ok2 || !ek.IsConst() {
+				panic(unsupported("map lookup with symbolic integer key over symbolic entries"))
+			}
+			if new(big.Int).And(ek.Val, km).Cmp(kv) != 0 {
+				continue // differs from the key in a bit the key always has
+			}
+			c := Eq(k, ek)
+			if kl != k {
+				c = Eq(kl, Extract(low-1, 0, ek))
+			}
+			val = Ite(c, ev, val)
+			in = Or(c, in)
+		}
+		return val, in
 	case *SymStr:
 		toks, seps := splitTokens(k.A)
 		if !simpleAtoms(k.A) {
@@ -1802,6 +1851,23 @@ func (x *Exec) mapLookup(m MapV, key Value, vt types.Type) (Value, *Term) {
 		}
 		if len(seps) > 0 {
 			return zero, tFalse // a key containing whitespace is in no whitespace-free key set
+		}
+		if bs, hasB, known := x.atomsBytes(toks[0]); known && hasB {
+			zt, isTerm := zero.(*Term)
+			if !isTerm {
+				panic(unsupported("symbolic map lookup with non-integer values"))
+			}
+			val, in := zt, tFalse
+			for _, e := range o.Entries {
+				ks := e.Key.(string)
+				if len(ks) != len(bs) {
+					continue
+				}
+				c := bytesEqConst(bs, ks)
+				val = Ite(c, e.Val.(*Term), val)
+				in = Or(c, in)
+			}
+			return val, in
 		}
 		id, ok := x.tokenID(toks[0])
 		if !ok {
@@ -1846,6 +1912,9 @@ type rangeIter struct {
 	m   *Object
 	pos int
 	str string
+	// range over a text with a byte token: precomputed (offset, rune) pairs
+	runes []TupleV
+	sym   bool
 }
 
 func (x *Exec) rangeInit(v Value) Value {
@@ -1857,12 +1926,42 @@ func (x *Exec) rangeInit(v Value) Value {
 		return &rangeIter{m: m.Obj}
 	case string:
 		return &rangeIter{str: m, pos: 0}
+	case *SymStr:
+		// byte tokens are ASCII (one rune per byte); the literal parts are decoded concretely
+		it := &rangeIter{sym: true}
+		off := 0
+		for _, a := range m.A {
+			switch {
+			case a.K == ATok && a.B != nil:
+				for _, b := range a.B {
+					it.runes = append(it.runes, TupleV{tTrue, BVi(int64(off), 64), ZExt(b, 32)})
+					off++
+				}
+			case a.K == ALit || a.K == ASep:
+				for p := 0; p < len(a.S); {
+					r, n := decodeRune(a.S[p:])
+					it.runes = append(it.runes, TupleV{tTrue, BVi(int64(off+p), 64), BVi(int64(r), 32)})
+					p += n
+				}
+				off += len(a.S)
+			default:
+				panic(unsupported("range over symbolic string"))
+			}
+		}
+		return it
 	}
 	panic(unsupported(fmt.Sprintf("range over %T", v)))
 }
 
 func (x *Exec) rangeNext(fr *frame, i *ssa.Next) Value {
 	it := x.get(fr, i.Iter).(*rangeIter)
+	if i.IsString && it.sym {
+		if it.pos >= len(it.runes) {
+			return TupleV{tFalse, BVi(0, 64), BVi(0, 32)}
+		}
+		it.pos++
+		return it.runes[it.pos-1]
+	}
 	if i.IsString {
 		if it.pos >= len(it.str) {
 			return TupleV{tFalse, BVi(0, 64), BVi(0, 32)}
@@ -2180,6 +2279,23 @@ func (x *Exec) strOrder(op token.Token, a, b Value) (*Term, bool) {
 		}
 	}
 	return nil, false
+}
+
+// symStrByteAt: byte of a text whose bytes are all known terms (byte tokens, literals).
+func (x *Exec) symStrByteAt(b *SymStr, idx *Term) *Term {
+	bs, _, ok := x.atomsBytes(b.A)
+	if !ok {
+		panic(unsupported("byte access into symbolic string " + renderAtoms(b.A)))
+	}
+	x.obligation(Ult(idx, BVi(int64(len(bs)), 64)), "string index out of range")
+	if idx.IsConst() {
+		return bs[idx.Int64()]
+	}
+	v := bs[len(bs)-1]
+	for k := len(bs) - 2; k >= 0; k-- {
+		v = Ite(Eq(idx, BVi(int64(k), 64)), bs[k], v)
+	}
+	return v
 }
 
 // stringByteAt: byte of a constant string at a (possibly symbolic) in-range index, as a piecewise table.
